@@ -33,13 +33,14 @@ def c07Mode : String → Option Mode
 
 def rOfLabel : String → Option RPc
   | "chan.read.top" => some .top | "chan.read.pre" => some .pre | "blocked" => some .inRead
-  | "chan.read.send" => some .send | "chan.read.exit" => some .exit | "dead" => some .dead | _ => none
+  | "chan.read.send" => some .send | "chan.read.exit" => some .exit | "dead" => some .dead
+  | "never" => some .never | _ => none
 def oOfLabel : String → Option OPc
   | "absent" => some .absent | "start" => some .start | _ => none
 def nOfLabel : String → Option NPc
   | "absent" => some .absent | "nc.read.top" => some .top | "nc.read.pre" => some .pre
   | "chan.Read.errs" => some .cErrs | "chan.Read.flag" => some .cFlag | "chan.Read.deq" => some .cDeq
-  | _ => none
+  | "dead" => some .dead | _ => none
 def wOfLabel : String → Option WPc
   | "absent" => some .absent | "start" => some .start | _ => none
 
@@ -53,7 +54,7 @@ def labelOf (p : Proc) (s : St) : String :=
   | .E => match s.feed with | .quiet => "quiet" | .data => "data" | .eof => "eof" | .err => "err"
 
 def c07Code (s : St) : Nat :=
-  ((((((((((((b2n s.nc * 3 + s.mode.toNat) * 2 + b2n s.twice) * 12 + s.r.toNat) * 11 + s.k.toNat) * 2
+  ((((((((((((b2n s.nc * 3 + s.mode.toNat) * 2 + b2n s.twice) * 13 + s.r.toNat) * 11 + s.k.toNat) * 2
     + b2n s.second) * 6 + s.o.toNat) * 2 + b2n s.oSecond) * 11 + s.n.toNat) * 6 + s.w.toNat) * 4
     + s.feed.toNat) * 3 + s.left.toNat) * 3 + s.panic.ctorIdx) * 4 + b2n s.closeErr * 2 + b2n s.lastErr
 
